@@ -8,7 +8,7 @@ theorem), that a repeated lookup returns the live mocker unless it was cancelled
 that a Pkg override is consumed by the next lookup, after which names resolve in the package that issued it.
 Tie X: whole histories are executed on the real goom API by a probe in the external test package (harness/c12; a
 helper package creates builders / issues lookups on its behalf) and by the model driver; the outcome class of every
-op and the behaviour class of all 13 targets after every step must agree.
+op and the behaviour class of all 15 targets after every step must agree.
 Oracle: a separate last-writer-wins reference (below, in Python) is applied to what the implementation did.
 """
 import os
@@ -25,9 +25,10 @@ META = {
     'level_note': 'Trusted: Lean kernel (axioms propext, Classical.choice, Quot.sound at most), the hand transcription Model/ApiC12.lean (validated on every run against the real code on the generated histories, stale-handle histories included), the probe and its canonicalisation. Universe: one builder (created in the test package or in a helper package), 2 functions, 2 methods, 1 single-method interface variable, 2x2 unexported functions and a same-named unexported struct method in two packages, 2 int variables, int arguments/results; each target is reached through one kind of handle (the same function reached through Func and ExportFunc gets two independent mockers - outside the universe). Not generated and not modelled: interface handles used after their own Cancel (context backup) and kept variable handles (saved origin; C08). The When algebra is shared between model and reference (it is the subject of C04/C05). reflect.MakeFunc, the patch layer and the GC are exercised, not modelled (GC is switched off in the probe: F9 belongs to C07).',
 }
 
-TARGETS = ['fA', 'fB', 'm1', 'm2', 'im', 'x0', 'y0', 'x1', 'y1', 'u0', 'u1', 'vv', 'vw']
+TARGETS = ['fA', 'fB', 'm1', 'm2', 'im', 'x0', 'y0', 'x1', 'y1', 'u0', 'u1', 'vv', 'vw', 'ia', 'ib']
+SIBLING = {'ia': 'ib', 'ib': 'ia'}
 HANDLES = [('fn', 'fA'), ('fn', 'fB'), ('st', 'M1'), ('st', 'M2'), ('if', 'M'), ('xf', 'X'), ('xf', 'Y'), ('xs', 'um'),
-           ('var', 'v'), ('uvar', 'w')]
+           ('var', 'v'), ('uvar', 'w'), ('i2', 'A'), ('i2', 'B')]
 VAR_KINDS = ('var', 'uvar')
 KEEP_KINDS = [('fn', 'fA'), ('st', 'M1'), ('xf', 'X'), ('xs', 'um'), ('if', 'M')]
 PKG_KINDS = ('xf', 'xs')        # lookups that resolve a name in the builder's package
@@ -35,6 +36,7 @@ STUBS = ('ret', 'when', 'whenret', 'rets')
 KEY_F7 = 'stub-after-apply-not-reinstalled'
 KEY_PKG = 'pkg-override-not-consumed-by-lookup'
 KEY_STALE = 'stale-handle'
+KEY_IF2 = 'iface-cancel-one-method'
 
 
 # ------------------------------------------------------------------ the reference: last writer wins (independent of the Lean model)
@@ -122,6 +124,8 @@ def tgt_name(kind, name, pkg):
         return {'X': 'x', 'Y': 'y'}[name] + pkg[1] if name in ('X', 'Y') and pkg in ('p0', 'p1') else None
     if kind == 'xs':
         return 'u' + pkg[1] if name == 'um' and pkg in ('p0', 'p1') else None
+    if kind == 'i2':
+        return {'A': 'ia', 'B': 'ib'}.get(name)
     if kind == 'var':
         return 'vv'
     if kind == 'uvar':
@@ -154,6 +158,7 @@ class Ref:
         self.pkg = 'pq' if newq else 'p0'          # a builder resolves names in the package that created it until its first lookup
         self.cache, self.regs = {}, {}
         self.stale_use = None                       # index of the first instruction issued through a stale handle
+        self.if2_cancel = None                      # index of the first Cancel of one method of the two-method interface while the other is configured
         self.iface_stale = False
 
     def lookup(self, kind, name, caller='p0'):
@@ -182,6 +187,8 @@ class Ref:
         if ins[0] == 'cancel':
             o.canceled = True
             if t is not None:
+                if t in SIBLING and self.beh[t] != 'o' and self.beh[SIBLING[t]] != 'o' and self.if2_cancel is None:
+                    self.if2_cancel = idx
                 self.beh[t] = 'o'
             return
         if t is None or (ins[0] in STUBS and o.kind in VAR_KINDS):
@@ -222,6 +229,8 @@ class Ref:
         row = []
         for x in TARGETS:
             b = self.beh[x]
+            if b == 'o' and x in SIBLING and self.beh[SIBLING[x]] != 'o':
+                b = 'n'                              # C07: a method without a mock of its own panics while its variable is mocked
             row.append('.'.join((b.invoke(a) if isinstance(b, RefWhen) else b) for a in (1, 2)))
         return ','.join(row)
 
@@ -254,7 +263,14 @@ def oracle(hist, obs):
     for i, (st, w) in enumerate(zip(steps, want)):
         row = st.rpartition(' ')[2]
         if row != w:
-            key = KEY_STALE if ref.stale_use is not None and i >= ref.stale_use else classify(ops[:i + 1], row, w)
+            g, ww = row.split(','), w.split(',')
+            only_if2 = all(g[j] == ww[j] for j in range(len(TARGETS) - 2))
+            if ref.stale_use is not None and i >= ref.stale_use:
+                key = KEY_STALE
+            elif ref.if2_cancel is not None and i >= ref.if2_cancel and only_if2:
+                key = KEY_IF2
+            else:
+                key = classify(ops[:i + 1], row, w)
             return ('after op %d `%s` targets behave %s, the last instructions say %s' % (i, ops[i], row, w), key)
     return None
 
@@ -327,7 +343,7 @@ def sanitize(ops):
                 continue
             if t[2] != 'look' and o.kind == 'if' and ref.stale(o):
                 continue
-        if t[0] == 'keep' and t[2] in VAR_KINDS:
+        if t[0] == 'keep' and (t[2] in VAR_KINDS or t[2] == 'i2'):
             continue
         ref.step(op.split(), i)
         out.append(op)
@@ -392,6 +408,12 @@ def systematic(depth):
     # the interface method again, every statement of the chain with its own As() literal
     for seq in out:
         hist.append(' ; '.join('if M.a%d %s' % (i % 3, a) for i, a in enumerate(seq)))
+    # the two-method interface variable: every sequence over both methods
+    al2 = ['%s %s' % (m, a) for m in ('A', 'B') for a in ('apply k1', 'ret 3', 'cancel', 'look')] + ['reset']
+    out = []
+    rec([], al2)
+    for seq in out:
+        hist.append(' ; '.join(a if a == 'reset' else 'i2 ' + a for a in seq))
     # variables: Set / Cancel / lookups, then Reset (the value must be back) and one more Set
     out = []
     rec([], valpha)
@@ -482,6 +504,8 @@ CORPUS = [
     'var v apply k1 ; var v apply k2 ; reset ; var v look ; uvar w apply k1 ; uvar w apply k2 ; uvar w cancel',   # review D5
     'newq ; xf X apply k1 ; xf X apply k2 ; qlook ; xf X apply k3 ; xf X ret 5',                        # review D1/D2
     'pkg p1 ; xfe ; xf X apply k1 ; xf X apply k2',                                                     # review A5
+    'i2 A ret 1 ; i2 B ret 2 ; i2 A cancel ; i2 A ret 3',                                               # review A3
+    'i2 A apply k1 ; i2 B look ; i2 A ret 3 ; i2 B whenret 1 5 ; i2 A cancel ; i2 B cancel ; reset ; i2 B apply k2',
 ]
 
 
@@ -672,8 +696,9 @@ def run(tier):
     diffs = C.diff_streams(lines, impl, model) if model is not None else []
     refdiff = 0
     if model is not None and lww is not None:
-        for m, l, r in zip(model, lww, refs):
-            if r.stale_use is None and [s.rpartition(' ')[2] for s in m.split(' ; ')] != l.split(' ; '):
+        for h, m, l, r in zip(hists, model, lww, refs):
+            covered = r.stale_use is None and not any(o.split()[0] == 'i2' for o in split_ops(h))   # hypothesis of refines_lww_partial
+            if covered and [s.rpartition(' ')[2] for s in m.split(' ; ')] != l.split(' ; '):
                 refdiff += 1
     if not real_fails:
         if diffs:
@@ -686,7 +711,7 @@ def run(tier):
                           {'kind': 'proof', 'broken': proof['failed'], 'searched': len(lines), 'output': proof.get('output', '')[-3000:]},
                           no_failing_input=True)
         elif refdiff:
-            out.violation('driver: model and reference disagree on a history without stale handles although refines_lww_partial is proved',
+            out.violation('driver: model and reference disagree on a history that meets the hypothesis of refines_lww_partial',
                           {'kind': 'driver', 'n': refdiff}, no_failing_input=True)
     # evidence
     nops = sum(h.count(';') + 1 for h in hists)
@@ -709,13 +734,13 @@ def run(tier):
         'obligations': proof['obligations'], 'discharged': proof['discharged'],
         'checker_cmd': ' ; '.join(proof['cmds']),
         'trusted_base': ['Lean 4.33 kernel', 'axioms: ' + ', '.join(sorted({a for v in proof['axioms'].values() for a in v}) or ['none']),
-                         'hand transcription Model/ApiC12.lean of builder.go/cache.go/mocker.go/iface.go/when.go/var.go (validated: every history below ran on the real API and on the model, outcome class of every op and behaviour of 13 targets compared after every step)',
+                         'hand transcription Model/ApiC12.lean of builder.go/cache.go/mocker.go/iface.go/when.go/var.go (validated: every history below ran on the real API and on the model, outcome class of every op and behaviour of 15 targets compared after every step)',
                          'probe harness/c12 and its canonicalisation; Python last-writer-wins reference in checks/C12.py (third, independent statement of the property)',
                          'not modelled: reflect.MakeFunc, patch layer, GC (off in the probe), aliasing of one function through two kinds of handle, interface handles used after their own Cancel, kept variable handles'],
         'theorems': proof['axioms'], 'proof_failures': proof['failed'],
         'evaluations': len(hists), 'steps': nops, 'distinct_nontrivial': nontrivial,
         'traces_validated_against_impl': len(hists) - len(diffs),
-        'rule': 'one evaluation = one history (fresh builder, created in the test package or by the helper package) of 1..30 ops; after every op all 13 targets are called with 1 and 2 / read; '
+        'rule': 'one evaluation = one history (fresh builder, created in the test package or by the helper package) of 1..30 ops; after every op all 15 targets are called with 1 and 2 / read; '
                 'lanes: regress corpus, all instruction triples (thorough: quadruples) over 8 instructions x 5 handle kinds and over 4 x 2 variable kinds, kept handles (stale/live/fresh x 3 instructions, pairs; thorough: triples), '
                 'caller-package lane (helper-created builder, helper-issued lookup, rejected lookup x pairs of 15 ops), Pkg x every pair (thorough: triple) of 13 lookup forms (cold and as cache hits), random valid, random with kept handles, random with error ops; '
                 'non-trivial = distinct observation in which some target is mocked',
